@@ -659,7 +659,7 @@ func (ex *Exec) extractInputs(extra *smt.Term) (map[string]interface{}, bool) {
 	var want []*smt.Term
 	for _, in := range ex.inputs {
 		switch in.Kind {
-		case "scalar":
+		case "scalar", "atom":
 			want = append(want, in.T)
 		default:
 			want = append(want, in.Len)
@@ -675,7 +675,7 @@ func (ex *Exec) extractInputs(extra *smt.Term) (map[string]interface{}, bool) {
 	for _, lim := range []uint64{1500, 20000} {
 		var small []*smt.Term
 		for _, in := range ex.inputs {
-			if in.Kind == "scalar" {
+			if in.Kind == "scalar" || in.Kind == "atom" {
 				continue
 			}
 			if !in.Len.IsConst() {
@@ -708,6 +708,16 @@ func (ex *Exec) extractInputs(extra *smt.Term) (map[string]interface{}, bool) {
 	var rngs []rng
 	for _, in := range ex.inputs {
 		switch in.Kind {
+		case "atom":
+			v := m[in.T.ID]
+			out[in.Name] = v.String()
+			for str, id := range ex.eng.strIntern {
+				if ex.eng.internStr(str).Val.Cmp(v) == 0 {
+					_ = id
+					out[in.Name] = "str:" + str
+				}
+			}
+			pins = append(pins, tb.Eq(in.T, tb.ConstBig(v, 64)))
 		case "scalar":
 			v := m[in.T.ID]
 			if in.T.S.K == smt.KBool {
